@@ -45,8 +45,12 @@ Proof. exact shift_is_relabel. Qed.
 
 Example C08_example :
   shift_suit (layout 12 3) = layout 12 2 /\ shift_suit (layout 0 0) = layout 0 3 /\ suit_bijection next_suit_spec /\
-  hand_rank_value false (shift_suit_hand [layout 12 3; layout 11 3; layout 10 3; layout 9 3; layout 8 3]) = Ok 1.
-Proof. repeat split; try (vm_compute; reflexivity); apply next_suit_bijection. Qed.
+  HandN 5 [layout 12 3; layout 11 3; layout 10 3; layout 9 3; layout 8 3] /\
+  HandN 7 [layout 0 0; layout 12 3; layout 11 3; layout 1 1; layout 10 3; layout 9 3; layout 8 3].
+Proof.
+  split; [vm_compute; reflexivity|]. split; [vm_compute; reflexivity|]. split; [apply next_suit_bijection|].
+  split; apply handN_b; vm_compute; reflexivity.
+Qed.
 
 Print Assumptions C08_card.
 Print Assumptions C08_cycle.
